@@ -260,6 +260,25 @@ macro_rules! enum_value {
 
 use enum_value;
 
+/// Verification hook: run the crate-private header validators on raw header bytes.
+/// `channel`: 0 = frontend requests, 1 = backend requests, 2 = GPU backend requests.
+#[cfg(feature = "verif-hooks")]
+pub fn verif_hdr_is_valid(channel: u8, bytes: [u8; 12]) -> bool {
+    use self::message::VhostUserMsgValidator;
+    use vm_memory::ByteValued;
+    match channel {
+        0 => message::VhostUserMsgHeader::<message::FrontendReq>::from_slice(&bytes)
+            .map(|h| h.is_valid())
+            .unwrap_or(false),
+        1 => message::VhostUserMsgHeader::<message::BackendReq>::from_slice(&bytes)
+            .map(|h| h.is_valid())
+            .unwrap_or(false),
+        _ => gpu_message::VhostUserGpuMsgHeader::<gpu_message::GpuBackendReq>::from_slice(&bytes)
+            .map(|h| h.is_valid())
+            .unwrap_or(false),
+    }
+}
+
 #[cfg(all(test, feature = "vhost-user-backend"))]
 mod dummy_backend;
 
